@@ -283,6 +283,7 @@ def run(chk):
         chk.classify(sig, rep)
 
     # ---- single values: encode / decode
+    single_decode_failed = set()
     for q in pts:
         r, v = res["p%d" % q["i"]], q["v"]
         if "panic" in r and "enc" not in r:
@@ -306,6 +307,7 @@ def run(chk):
                 what = "consumed"
             if what:
                 stats["decode_divergences"] += 1
+                single_decode_failed.add(json.dumps(v, sort_keys=True))
                 leaf = diffleaf(q["canon"], d) if what == "value" else v
                 report("decode:%s:%s" % (what, vclass(leaf)), {"value": v, "shown": show(v), "key": r["enc"], "decoded": d, "consumed": r[cons], "key_len": n,
                                                             "expected": q["canon"], "with_tail": which == "dec_tail"})
@@ -380,6 +382,10 @@ def run(chk):
             keyed.append((x, bytes.fromhex(r["enc"]), r))
             exp = [canon_of.get(json.dumps(c, sort_keys=True), c) for c in x["cols"]]
             if r["dec_cols"] != exp or r["consumed"] != len(r["enc"]) // 2:
+                # a column that already fails to decode on its own is reported there, with its own signature
+                if any(json.dumps(c, sort_keys=True) in single_decode_failed for c in x["cols"]):
+                    stats["composite_decodes_skipped_behind_single_value_finding"] = stats.get("composite_decodes_skipped_behind_single_value_finding", 0) + 1
+                    continue
                 kbad = next((n for n in range(len(exp)) if n >= len(r["dec_cols"]) or r["dec_cols"][n] != exp[n]), len(exp) - 1)
                 report("decode:composite:col%d:%s" % (kbad + 1, vclass(x["cols"][kbad])), {"cols": [show(c) for c in x["cols"]], "key": r["enc"], "decoded": r["dec_cols"], "expected": exp})
         for i, (x, kx, _) in enumerate(keyed):
@@ -452,8 +458,9 @@ def sql_part(chk, pts, t2, rng, report, thorough):
         # (sql/planner/encoding.rs) must produce the key the glue stored
         lits = [(i, sql_literal(pts[i]["v"])) for i, _ in items if sql_literal(pts[i]["v"]) is not None]
         if lits:
-            lops = list(ops[:2 + len(ids)]) + [{"k": "exec", "sql": "EXPLAIN SELECT id FROM t WHERE v = %s" % lits[0][1]}]
-            lops += [{"k": "query", "sql": "SELECT id FROM t WHERE v = %s" % lit} for _, lit in lits]
+            lops = list(ops[:2 + len(ids)]) + [{"k": "exec", "sql": "EXPLAIN SELECT id FROM t ORDER BY v"}]
+            for _, lit in lits:
+                lops += [{"k": "exec", "sql": "EXPLAIN SELECT id FROM t WHERE v = %s" % lit}, {"k": "query", "sql": "SELECT id FROM t WHERE v = %s" % lit}]
             cases.append({"id": "lookup:" + typ, "ops": lops})
             meta["lookup:" + typ] = ("lookup", (ids, lits))
     # composite (TEXT, DOUBLE) index: the 2-tuples whose columns are text/NULL and float/NULL
@@ -490,7 +497,11 @@ def sql_part(chk, pts, t2, rng, report, thorough):
         st["via_index"].append(r["id"])
         if kind == "lookup":
             inserted = {n: ids[n] for n, x in zip(sorted(ids), rs[2:2 + len(ids)]) if "ok" in x and ids[n] is not None}
-            for (i, lit), qres in zip(lits, rs[3 + len(ids):]):
+            tail = rs[3 + len(ids):]
+            for (i, lit), ex, qres in zip(lits, tail[0::2], tail[1::2]):
+                if not (isinstance(ex.get("ok"), dict) and "IndexScan" in ex["ok"].get("plan", "")):
+                    st["lookups_not_via_index"] = st.get("lookups_not_via_index", 0) + 1
+                    continue
                 if "rows" not in qres:
                     st["literals_rejected"] = st.get("literals_rejected", 0) + 1
                     if "panic" in qres:
